@@ -48,39 +48,54 @@ CLAIMED.update({
         "text": "Proof at the point where nodes are made: transparent nodes are never stored, eliminated nodes are not stored and the "
                 "elimination preserves the function, quasi-reduced forests eliminate nothing but all-zero nodes, identity/redundant "
                 "elimination happens only where the rule allows it, EV+ values are normalised (zero children carry 0, values shifted by "
-                "the factored minimum, non-negative), the scratch node is recycled exactly once. Partial (see note).",
-        "note": COMMON_NOTE + " Not covered: in-place rewrite during reordering, chain builders, node-count bookkeeping across histories, "
+                "the factored minimum, non-negative), the scratch node is recycled exactly once. "
+                "The in-place rewrite used by reordering (forest::modifyReducedNodeInPlace) leaves the unique table under the old hash "
+                "before the storage goes and re-enters under the hash of the new content. BOUNDED stand-ins (labelled bounded, not counted "
+                "as proved): the packed-node codec on nodes of up to 3 entries (U-codecb) and the real mtmdd swapAdjacentVariables on a "
+                "symbolic world of 2 (quick) / 3 (thorough) stored nodes (U-swapb). Partial (see note).",
+        "note": COMMON_NOTE + " Not covered: relation swaps, chain builders, node-count bookkeeping across histories, "
                 "completeness of elimination (counting argument).",
-        "design_ref": "DESIGN.md 4 U-reduce, U-hash",
+        "design_ref": "DESIGN.md A.1, A.2b, 4 U-reduce, U-hash",
     },
     "C03": {
         "text": "Proof of the partition step the minterm-collection builders rest on (fbuilder_common::moveValuesToFront / movePairsToFront / "
                 "getMinMax, real bodies, loop contracts): the front part holds exactly the front value, nothing outside [low,high) moves, "
                 "the split point is in range; 'the back part holds no front value' is proved with a quantified invariant on z3 for "
-                "collections of up to 1000 minterms (labelled bounded). The recursive builders and evaluate are not covered.",
+                "collections of up to 1000 minterms (labelled bounded). How the values of equal minterms are combined "
+                "(fbop_min/max_tmpl<long>::finalize, real bodies with the real rangeval accessors): the result is one of the entries and a "
+                "lower / upper bound of every entry with +infinity on top. The recursive builders and evaluate are not covered.",
         "note": COMMON_NOTE,
-        "design_ref": "DESIGN.md 4 U-mint",
+        "design_ref": "DESIGN.md A.2b, 4 U-mint",
     },
     "C13": {
         "text": "Proof that the variable-order bookkeeping every swap goes through keeps the two order maps mutually inverse "
-                "(variable_order::exchange, unbounded number of variables); the node rewriting of the swap algorithms is out of reach.",
+                "(variable_order::exchange, unbounded number of variables) and that the in-place node rewrite keeps the handle and swaps "
+                "the unique-table entry (modifyReducedNodeInPlace). BOUNDED stand-in (labelled bounded): the real mtmdd_forest::"
+                "swapAdjacentVariables on a symbolic world of 2 / 3 stored nodes with variable sizes 2..3 - every rewritten node has "
+                "new[j][k] == old[k][j], independent nodes are only relabelled, children stay below parents, one exchange. "
+                "Relation swaps and the scheduling heuristics are out of reach.",
         "note": COMMON_NOTE,
-        "design_ref": "DESIGN.md 4 U-vord",
+        "design_ref": "DESIGN.md A.2b, 4 U-vord",
     },
     "C15": {
         "text": "Proof of the index-set lookup descent (dd_edge::getElemInt/getElemLong, real bodies, loop contracts): at every level the "
                 "largest position whose offset does not exceed the remaining index is chosen, only real nodes are unpacked (this "
                 "obligation exposed the crash on the empty set, fixed), negative indexes and the empty set fail, mismatches raise "
-                "the documented errors. The conversion mdd2index is not covered.",
-        "note": COMMON_NOTE,
-        "design_ref": "DESIGN.md 4 U-index",
+                "the documented errors. The conversion (mdd2index_operation::_compute, recursive, checked against its own contract with "
+                "--enforce-contract-rec): the offset of child i is the number of members below the children before it, the stored "
+                "cardinality is the sum, a compute-table hit returns the cached node and its cardinality; getIndexSetCardinality returns "
+                "the stored long (its int truncation was found by this contract and fixed).",
+        "note": COMMON_NOTE + " The compute table is a stub: a hit returns the pair that was added for the key.",
+        "design_ref": "DESIGN.md A.2b, 4 U-index",
     },
     "C16": {
         "text": "Proof of the direct raises with their codes: VALUE_OVERFLOW for integers outside the terminal range and only those "
-                "(U-term), FOREST_MISMATCH / INVALID_OPERATION / DOMAIN_MISMATCH guards of the index lookup (U-index). Partial: "
-                "operand checks in operation constructors and the state after an error deep in a recursion are not covered.",
+                "(U-term), FOREST_MISMATCH / INVALID_OPERATION / DOMAIN_MISMATCH guards of the index lookup (U-index), DIVIDE_BY_ZERO and "
+                "INFINITY_DIV_INFINITY in the division kernels and on every shortcut path (U-arith), and the 8 + 7 compatibility helpers "
+                "of binary_operation / unary_operation raise exactly on a mismatch with the documented code (U-opchk, U-opchku). Partial: "
+                "which helper each operation constructor calls and the state after an error deep in a recursion are not covered.",
         "note": COMMON_NOTE,
-        "design_ref": "DESIGN.md 4 U-term, U-index",
+        "design_ref": "DESIGN.md A.1, 4 U-term, U-index, U-arith",
     },
 })
 CLAIMED.update({
@@ -99,8 +114,10 @@ CLAIMED.update({
                 "array+grid (boundary-tag codec, resize keeps contents, allocateFromArray returns space above everything used and inside "
                 "the arena, recycleChunk coalesces with tagged neighbours and never alters a slot outside the merged region). Disjointness "
                 "of all live chunks over a history follows from these per-call contracts by an induction that is not machine-checked. "
-                "array+grid requestChunk, original grid, heap and malloc styles are not covered.",
-        "note": COMMON_NOTE + " The hole index (grid, lists) is an assumed stub: it writes only pointer slots inside holes.",
+                "The grid / list index of the array+grid manager (stopTrackingHole, startTrackingHole) and heap_manager::recycleChunk "
+                "(coalescing; the current-hole pointer stays 0 or a hole inside the used arena) are under contract in the thorough tier "
+                "(400-700 s each). requestChunk of both managers, original grid and malloc styles are not covered.",
+        "note": COMMON_NOTE + " In recycleChunk the hole index / heap maintenance is an assumed stub: it writes only pointer slots inside holes.",
         "design_ref": "DESIGN.md 4 U-mm",
     },
 })
@@ -110,9 +127,12 @@ CLAIMED.update({
                 "computes enc(dec(a) op dec(b)), raises DIVIDE_BY_ZERO exactly for a zero divisor and VALUE_OVERFLOW exactly when the "
                 "result leaves the terminal range, and that every shortcut predicate (simplifiesToFirst/SecondArg, stopOnEqualArgs, "
                 "commutes) is sound with respect to its kernel - the early exits the ops_* tests cannot span (this exposed the "
-                "division shortcuts returning values at zero divisors, fixed). Loop-free, full symbolic domain. Partial: the "
-                "recursion that applies the kernels, comparisons, EV+/EV*/real kernels, range scans and user maps are not covered.",
-        "note": COMMON_NOTE + " Three jobs with 64-bit multiply/divide equivalences run only in the thorough tier.",
+                "division shortcuts returning values at zero divisors, fixed). The same for the six comparisons (MT and EV+) and the EV+ "
+                "mult/div/mod kernels with +infinity. Shortcut predicates are also checked with NON-TERMINAL operands, point-wise: whenever "
+                "a predicate answers 'the result is the first (second) operand', the kernel applied to the operands' values at an arbitrary "
+                "assignment gives that operand's value there (this exposed EV+ 0*infinity, fixed). Loop-free, full symbolic domain. "
+                "Partial: the recursion that applies the kernels, EV* and real kernels, range scans and user maps are not covered.",
+        "note": COMMON_NOTE + " Jobs with 64-bit multiply/divide/remainder equivalences run only in the thorough tier.",
         "design_ref": "DESIGN.md A.1, 4 U-arith",
     },
 })
